@@ -357,7 +357,15 @@ func checkC20(c *Checker) {
 	// a pool built from a zero-channel allocator: putting back the buffer it handed out must not panic
 	if fn := c.anchor("C20-Z3", "(*PoolAllocator[T]).Put"); fn != nil && len(fn.Params) == 2 {
 		p, b := paramName(fn, 0), paramName(fn, 1)
-		asm := map[string]*Term{p + ".alloc.Channels": zeroI(), b + hdrLayout.chSuffix(): zeroI(), "len(" + b + hdrLayout.dataSuffix() + ")": zeroI(), "cap(" + b + hdrLayout.dataSuffix() + ")": zeroI()}
+		asm := map[string]*Term{b + hdrLayout.chSuffix(): zeroI(), "len(" + b + hdrLayout.dataSuffix() + ")": zeroI(), "cap(" + b + hdrLayout.dataSuffix() + ")": zeroI()}
+		// the PoolAllocator's fields as its constructor sets them for an allocator with zero channels
+		if pm := c.poolModel(); pm.ok {
+			for k, v := range pm.fields {
+				asm[p+"."+k] = canon(v.subst(map[string]*Term{pm.a + ".Channels": zeroI()}))
+			}
+		} else {
+			asm[p+".alloc.Channels"] = zeroI()
+		}
 		s := c.runAssumed(fn, asm)
 		inst := shortFn(c.W, fn) + " @ zero-channel pool"
 		if !c.undecidedEffects("C20-Z3", inst, s) {
